@@ -280,6 +280,9 @@ func (m *master) scenarios(only string) []*scnRun {
 		if only != "" && !strings.Contains(","+only+",", ","+s.Name+",") {
 			continue
 		}
+		if (s.ThoroughOnly && m.tier != "thorough") || (s.QuickOnly && m.tier == "thorough") {
+			continue
+		}
 		b := s.Quick
 		if m.tier == "thorough" {
 			b = s.Thorough
@@ -953,7 +956,9 @@ func (m *master) summary(runs []*scnRun) {
 		if r.incomplete != "" {
 			inc = " INCOMPLETE(" + r.incomplete + ")"
 		}
-		if r.unbounded {
+		if r.unbounded && r.s.Det {
+			inc += " ALL-SEQUENCES"
+		} else if r.unbounded {
 			inc += " ALL-INTERLEAVINGS"
 		}
 		mode := "pb"
